@@ -18,6 +18,7 @@ void myth_verif_point(int id);                    /* schedule-control point */
 void myth_verif_spin(int id);                     /* cannot progress until someone else moves */
 void myth_verif_idle(void);                       /* top of the scheduler's idle loop */
 void myth_verif_ev(const char *name, int n, ...); /* n long arguments */
+void myth_verif_evzk(const char *name, int k, int n, ...);/* dropped when idle worker and k-th arg == 0 */
 void myth_verif_evz(const char *name, int n, ...);/* same, dropped when idle worker and last arg == 0 */
 void myth_verif_evlock(const char *name, const void *lock); /* logged only for locks registered in ns 2 */
 long myth_verif_id(int ns, const void *p);        /* dense id (1,2,..) per namespace, 0 for NULL */
@@ -54,6 +55,7 @@ void vrt_free_record(int on);        /* record events outside the serialized mod
 void vrt_set_out(const char *path);
 long vrt_nevents(void);
 int  vrt_peek(int back, const char **name, long *lastarg);
+long vrt_peek_arg(int back, int k);   /* k-th argument (1-based) of that event, -1 if none */
 int  vrt_all_others_idle(void);
 void vrt_install_crash_handlers(void);
 void vrt_giveup(const char *what);
